@@ -9,7 +9,11 @@
 (*   check), getTrAuthData, getCallAuthData,                               *)
 (*   credentials.CheckSecurityLevel, credentials/insecure, credentials/local*)
 (* and the property statement (NoLeak / MustFail / Delivered) over          *)
-(* (case, outcome) pairs.                                                   *)
+(* (case, outcome) pairs.  A case of the executed matrix (HCases) is a      *)
+(* per-connection HISTORY: 1 to 3 RPCs made one after the other on the same *)
+(* ClientConn / transport with different call-level credentials; the        *)
+(* clauses are judged per RPC (the statement has no memory: what an earlier *)
+(* RPC of the connection carried never licenses a later one).               *)
 (***************************************************************************)
 EXTENDS Integers, Sequences, FiniteSets
 CONSTANT Mutant
@@ -28,6 +32,19 @@ Vias  == {"opt", "bundle"}     \* WithTransportCredentials / WithCredentialsBund
 
 Cases == {x \in [t : Transports, via : Vias, d : Kinds, b : Kinds, c : Kinds] :
              x.via = "opt" => x.b = "absent"}
+
+\* Executed matrix: histories.  `calls` is the sequence of call-level credential kinds of the RPCs made
+\* on the one connection.  Length 1: the whole single-RPC matrix.  Length 2 and 3: every order of
+\* absent / not requiring / requiring / self-checking call credentials over every transport kind (no
+\* dial-level credentials).
+HKinds == {"absent", "noreq", "req", "check"}
+SeqsOf(S, n) == [1..n -> S]
+HCases == {x \in [t : Transports, via : Vias, d : Kinds, b : Kinds, calls : SeqsOf(Kinds, 1)] :
+              x.via = "opt" => x.b = "absent"}
+          \cup [t : Transports, via : {"opt"}, d : {"absent"}, b : {"absent"},
+                calls : SeqsOf(HKinds, 2) \cup SeqsOf(HKinds, 3)]
+\* the i-th RPC of a history as a single-RPC case
+At(x, i) == [t |-> x.t, via |-> x.via, d |-> x.d, b |-> x.b, c |-> x.calls[i]]
 
 \* credentials.SecurityLevel: InvalidSecurityLevel = 0, NoSecurity = 1, IntegrityOnly = 2, PrivacyAndIntegrity = 3
 Level(t) == CASE t \in {"insecure", "local_tcp", "custom_none"} -> 1
